@@ -9,7 +9,7 @@ def T2(fn, srcs, rb, L, prior, what, fns, tiers=("quick", "thorough"), suffix=""
     return dict(file="C18.c", name="%s-L%d%s" % (fn, L, suffix), function=fn, repo_srcs=srcs, remove_bodies=rb, models=[],
                 defines=_inc + ["-DH_" + fn, "-DLMAX=%d" % lmax, "-DLCONC=%d" % L, "-DPRIORMAX=%s" % prior], unwind=max(lmax, 128) + 4,
                 what=what + ", message length %d" % L, bounds="message length %d (symbolic content), every 2-way split into update calls, 0..%s whole blocks absorbed before" % (L, prior),
-                functions=fns, tiers=tiers, timeout=kw.pop("timeout", 1500), **kw)
+                functions=fns, tiers=tiers, timeout=kw.pop("timeout", 2400), **kw)
 _rb256 = {"src/lib/hash/bundled/sha2/sha2.c": ["sha256_transf"]}
 _rb512 = {"src/lib/hash/bundled/sha2/sha2.c": ["sha512_transf"]}
 _rb1 = {"src/lib/hash/bundled/sha1/sha1.c": ["SHA1_Transform"]}
@@ -18,7 +18,7 @@ _p = []
 for L in (0, 1, 55, 56, 63, 64, 65, 119, 120, 128):
     _p.append(T2("h18p256", _sha2, _rb256, L, "(1u<<22)", "SHA-256 init/update/final block protocol", _f256, tiers=("quick", "thorough") if L in (0, 55, 56, 64, 120) else ("thorough",)))
     _p.append(T2("h18p1", _sha1, _rb1, L, "0", "SHA-1 Init/Update/Final block protocol", _f1, tiers=("quick", "thorough") if L in (0, 55, 56, 64, 128) else ("thorough",)))
-for L in (0, 1, 111, 112, 127, 128, 129, 240):
+for L in (0, 1, 111, 112, 127, 128):
     _p.append(T2("h18p512", _sha2, _rb512, L, "(1u<<21)", "SHA-512 init/update/final block protocol", _f512, tiers=("quick", "thorough") if L in (0, 111, 112) else ("thorough",)))
 _p.append(T2("h18p256", _sha2, _rb256, 8, "0xffffffffu", "SHA-256 protocol after up to 256 GiB of earlier data (width of the length field)", _f256, suffix="-long"))
 _p.append(T2("h18p512", _sha2, _rb512, 8, "0xffffffffu", "SHA-512 protocol after up to 512 GiB of earlier data (width of the length field)", _f512, suffix="-long"))
